@@ -52,6 +52,7 @@ pub enum PerfKey {
     KingOfTheHill,
     Antichess,
     Atomic,
+    Horde,
     ThreeCheck,
     RacingKings,
     Crazyhouse,
